@@ -896,4 +896,9 @@ class SchedulingSolver(BaseModelWithJson):
         if not self._initialized:
             self.initialize()
         with open(smt_filename, "w", encoding="utf-8") as outfile:
-            outfile.write(self._solver.to_smt2())
+            if isinstance(self._solver, z3.Optimize):
+                # z3.Optimize has no to_smt2 method, sexpr gives the SMT-LIB2 script
+                # (assertions and objectives)
+                outfile.write(self._solver.sexpr())
+            else:
+                outfile.write(self._solver.to_smt2())
